@@ -143,6 +143,9 @@ func (t *Dense) Reshape(dims ...int) error {
 	}
 
 	if !t.old.IsZero() {
+		// Transpose gives the saved access pattern back to the pool, which zeroes it: dims may
+		// be that very slice (s := t.Shape(); t.T(); t.Reshape(s...))
+		dims = append([]int(nil), dims...)
 		t.Transpose()
 	}
 
